@@ -135,6 +135,12 @@ pub fn rule_pool() -> Vec<RuleSpec> {
         r("let-under-sum", "(let $x (sum $y ?b) ?e)", "(sum $y (let $x ?b ?e))"),
         c("sum-drop-const-summand", "(sum $x (add ?a ?b))", "(sum $x ?b)", "x", "a"),
         RuleSpec { name: "sum-both-const", lhs: "(sum $x (add ?a ?c))", rhs: "0", not_free: Some(("x", "a")), not_free2: Some(("x", "c")) },
+        // wrong as soon as only ONE of the two conditions is enforced (the summation rule above stays valid in
+        // F_p for many non-constant summands, this one does not): dropping the binding frees $x
+        // the right side names a slot that the left side does not have: the class is united with a renamed copy of
+        // itself and loses the slot IN PLACE (no new class, no merge, no new node)
+        r("mul-zero-rename", "(mul (var $y) 0)", "(mul (var $z) 0)"),
+        RuleSpec { name: "let-unused-both", lhs: "(let $x (add ?a ?c) ?e)", rhs: "(add ?a ?c)", not_free: Some(("x", "a")), not_free2: Some(("x", "c")) },
     ]
 }
 
@@ -144,6 +150,8 @@ pub fn mk_rule<N: Analysis<Ar> + 'static>(r: &RuleSpec) -> Rewrite<Ar, N> {
         // slot_free_in(s, v) is true iff the binding of ?v does NOT mention slot s
         Some((s, v)) => match r.not_free2 {
             None => Rewrite::new_if(r.name, r.lhs, r.rhs, slot_free_in(s, v)),
+            // the plain `and` combinator
+            Some((s2, v2)) if r.name == "let-unused-both" => Rewrite::new_if(r.name, r.lhs, r.rhs, and(slot_free_in(s, v), slot_free_in(s2, v2))),
             // exercises the `and` and `not` combinators: a && b  ==  not(or(not a, not b))
             Some((s2, v2)) => Rewrite::new_if(r.name, r.lhs, r.rhs, and(slot_free_in(s, v), not(or(not(slot_free_in(s2, v2)), not(slot_free_in(s2, v2)))))),
         },
@@ -655,6 +663,10 @@ pub fn special_terms() -> Vec<T> {
         tsum(100, node2("add", tvar(0), node1("neg", tvar(0)))),
         // let x = z in (sum y. x * y) + x
         tlet(100, node2("add", tsum(101, node2("mul", tvar(100), tvar(101))), tvar(100)), tvar(1)),
+        // let whose body mentions the bound name in exactly one / in neither summand
+        tlet(100, node2("add", tvar(100), tnum("1")), tvar(0)),
+        tlet(100, node2("add", tnum("1"), tvar(100)), tnum("2")),
+        tlet(100, node2("add", tvar(0), tnum("1")), tvar(1)),
         // children sharing a slot with a (to be) symmetric sibling
         node2("mul", node2("add", tvar(0), tvar(1)), tvar(0)),
         node2("add", node2("mul", tvar(0), tvar(1)), tvar(1)),
